@@ -1565,10 +1565,12 @@ def classify_known(c):
                 # the masked constant: not writeable (h5netcdf), or float64 with a text fill value (both)
                 return "scalar-missing-value-data-array-raises"
             return None
-        if uns_true(var) and p["unpack"] and dt[0] == "f":
-            return "unsigned-view-of-non-integer-data"
+        # (open signatures are tried before those of repaired defects: a case that belongs to an open finding
+        # must not be taken over by the signature of a fixed one, which suppresses nothing)
         if p["unpack"] and trivial_single(var) and (why.startswith("dtype") or why.startswith("value")):
             return "unpack-neutral-single-scale-or-offset-casts-to-attribute-dtype"
+        if uns_true(var) and p["unpack"] and dt[0] == "f":
+            return "unsigned-view-of-non-integer-data"
         if why.startswith("mask"):
             if is_str(dt) and p["backend"] == "h5netcdf" and p["mask"] and mv is not None and "text" in mv \
                     and mv["text"] in sel:
